@@ -10,10 +10,9 @@ as a segment (entered set E, configuration afterwards, on_enter / on_final / aft
     `Final.expected` on every segment — judges multiplicity (once), absence (no other on_final call,
     also none outside a transition), order (children before parents, machine last) and position (after
     on_enter, before the after callbacks);
-  * correspondence: the Lean transcription of `_final_check` (Model/Final.lean, variant
-    `CODE_VARIANT`) on the same observed (configuration, E) must schedule exactly the callbacks the
-    implementation ran, in the same order, and raise the root-scope AttributeError exactly when the
-    implementation does.
+  * correspondence: the Lean transcription of `_final_check` (Model/Final.lean, the code after the
+    fixes 919a36b / 576f1fd) on the same observed (configuration, E) must schedule exactly the callbacks
+    the implementation ran, in the same order, and never raise.
 
 Flat part (core.py / asyncio.py `_change_state`): flat descriptions of harness/flat.py on `Machine` and
 `AsyncMachine`; monitor = `FlatFinalEvent` stated in Python on every event; correspondence = the Lean
@@ -31,27 +30,6 @@ import time
 from .. import aflat, common, flat, nfinal, runner
 from ..common import SLOT
 from ..runner import Exploration, Failure
-
-# Which variant of lean/Model/Final.lean mirrors the tree in /repo (Handlers/HC18.lean):
-#   bit 0 = proposed_fixes/C18_1.diff applied (loop variable no longer returned),
-#   bit 1 = proposed_fixes/C18_2.diff applied (final-flagged state entered with non-final children fires).
-# The model follows the code: once a finding is marked "fixed" in known_findings.json (the commit that
-# adopts its patch in /repo) the corresponding switch is on.  VERIF_C18_VARIANT overrides, for trying a
-# candidate patch in a scratch worktree (VERIF_REPO=<worktree> VERIF_C18_VARIANT=1|2|3 ./vcheck run C18).
-
-
-def code_variant():
-    if os.environ.get('VERIF_C18_VARIANT'):
-        return int(os.environ['VERIF_C18_VARIANT'])
-    fixed = set(f.get('id') for f in common.load_known_findings() if f.get('status') == 'fixed')
-    return (1 if 'F-C18-final-check-loop-variable' in fixed else 0) + (2 if 'F-C18-final-compound-never-fires' in fixed else 0)
-
-
-CODE_VARIANT = code_variant()
-
-SIG_LEAK = 'C18:_final_check:loop-variable-is_final-returned:last-child-final'
-SIG_ATTR = 'C18:_final_check:root-scope-scoped_enter-AttributeError:after-leak'
-SIG_COMP = 'C18:_final_check:final-flagged-state-entered-with-nonfinal-active-children'
 
 WATCH = (SLOT['on_enter'], SLOT['on_final'], SLOT['after'])
 
@@ -126,7 +104,7 @@ def describe(p, ans=None):
     if ans is not None:
         out['lean_spec'] = [o - 1 for o in ans['spec'][0]]
         out['lean_code_model'] = 'AttributeError' if ans['code'] is None else [o - 1 for o in ans['code'][0]]
-        out['hypotheses'] = {'enteredWF': ans['wf'], 'noLeak': ans['noleak'], 'noCompound': ans['nocompound']}
+        out['hypotheses'] = {'enteredWF': ans['wf']}
     return out
 
 
@@ -140,13 +118,11 @@ def other_exception(p):
 
 
 def settle(pend, ex, fails, keep=3):
-    """phases 2/3: the Lean spec and code model on every observed (configuration, E); classification of
-    the segments the monitor rejects"""
+    """phase 2: the Lean spec and code model on every observed (configuration, E)"""
     if not pend:
         return
     ans = [nfinal.parse_answer(a) for a in
-           common.batch_driver([nfinal.request(p.d, CODE_VARIANT, p.info['roots'], p.info['E'], p.finals) for p in pend])]
-    rejected = []
+           common.batch_driver([nfinal.request(p.d, p.info['roots'], p.info['E'], p.finals) for p in pend])]
     kept = {}
     for p, a in zip(pend, ans):
         ex.traces_validated += 1
@@ -165,6 +141,10 @@ def settle(pend, ex, fails, keep=3):
             bump(ex.stats, 'features', 'final_state_re_entered')
         if one_region_changed(p.info['roots'], set(p.info['E'])):
             bump(ex.stats, 'features', 'only_one_parallel_region_changed')
+        if any(it[0] == 'final_end' for it in p.sg.items):
+            bump(ex.stats, 'features', 'coroutine_on_final_completed')
+        if any(p.finals[i] and nfinal_has_kids(p.info['roots'], i) for i in p.info['E']):
+            bump(ex.stats, 'features', 'final_flagged_state_entered_with_active_children')
         if not a['wf']:
             bump(ex.stats, 'features', 'entered_set_not_wf')
         if not a['nodup']:
@@ -190,42 +170,21 @@ def settle(pend, ex, fails, keep=3):
         if attr_error(p):
             p.probs = p.probs + ['the final check raises AttributeError (machine.scoped_enter) after the state change']
         if p.probs:
-            rejected.append((p, a))
-    if not rejected:
-        return
-    # classification against the open findings: what would the code do with only one defect left?
-    v1 = [nfinal.parse_answer(x) for x in common.batch_driver(
-        [nfinal.request(p.d, 1, p.info['roots'], p.info['E'], p.finals) for p, _a in rejected])]
-    v2 = [nfinal.parse_answer(x) for x in common.batch_driver(
-        [nfinal.request(p.d, 2, p.info['roots'], p.info['E'], p.finals) for p, _a in rejected])]
-    v0 = [nfinal.parse_answer(x) for x in common.batch_driver(
-        [nfinal.request(p.d, 0, p.info['roots'], p.info['E'], p.finals) for p, _a in rejected])]
-    for (p, a), a0, a1, a2 in zip(rejected, v0, v1, v2):
-        got_cbs = [c for _o, c in p.info['got']]
-
-        def behaves_like(m):
-            if m['code'] is None:
-                return attr_error(p) and not got_cbs
-            return p.sg.closed and m['code'][1] == got_cbs
-        pos_only = all(('runs after' in x or 'not between' in x or 'configuration changes' in x) for x in p.probs)
-        sigs = []
-        if pos_only:
-            sigs = ['C18.monitor.position']
-        elif attr_error(p):
-            sigs = [SIG_ATTR] if (behaves_like(a0) and not a['noleak']) else ['C18.monitor.raises']
-        elif behaves_like(a1) and not a['nocompound']:
-            sigs = [SIG_COMP]                      # explained by item 11 alone
-        elif behaves_like(a2) and not a['noleak']:
-            sigs = [SIG_LEAK]                      # explained by item 10 alone
-        elif behaves_like(a0) and not a['noleak'] and not a['nocompound']:
-            sigs = [SIG_LEAK, SIG_COMP]            # both defects show in this configuration
-        else:
-            sigs = ['C18.monitor']
-        for sig in sigs:
+            pos_only = all(('runs after' in x or 'not between' in x or 'configuration changes' in x) for x in p.probs)
+            sig = 'C18.monitor.position' if pos_only else ('C18.monitor.raises' if attr_error(p) else 'C18.monitor')
             bump(ex.stats, 'monitor_rejections', sig)
             kept[sig] = kept.get(sig, 0) + 1
-            if kept[sig] <= (1 if sig in (SIG_LEAK, SIG_ATTR, SIG_COMP) else keep):
+            if kept[sig] <= keep:
                 fails.append(Failure('monitor', 'fires-spec', p.case, describe(p, a), signature=sig))
+
+
+def nfinal_has_kids(roots, i):
+    for t in roots:
+        if t[0] == i:
+            return bool(t[1])
+        if nfinal_has_kids(t[1], i):
+            return True
+    return False
 
 
 def one_region_changed(roots, E):
@@ -603,12 +562,7 @@ def chunk_corpus():
     for name, c in corpus_cases():
         fs = judge_case(c['case'])
         ex.evaluations += 1
-        sigs = sorted(set(f.signature for f in fs if f.kind == 'monitor'))
-        if sigs != sorted(c.get('expect_signatures', [])) and CODE_VARIANT == 0:
-            # a regression witness no longer behaves as recorded (kept as a statistic; the failures
-            # themselves are judged like any other case)
-            bump(ex.stats, 'corpus_changed', name)
-        bump(ex.stats, 'corpus', name)
+        bump(ex.stats, 'corpus', name + (':FAILS' if fs else ':passes'))     # regression witnesses must pass
         ex.failures += fs
     return ex
 
@@ -617,10 +571,7 @@ class C18(runner.Check):
     prop = 'C18'
     level = 'proof'
     theorems = ('TM.C18_flat_exact', 'TM.C18_flat_history', 'TM.C18_flat_final_position',
-                'TM.C18_flat_no_final_otherwise', 'TM.C18_nested_exact_partial', 'TM.C18_nested_exact_patched',
-                'TM.C18_nested_exact_leak_patched', 'TM.C18_nested_exact_counterexample',
-                'TM.C18_nested_exact_counterexample_leak', 'TM.C18_nested_exact_counterexample_attribute_error',
-                'TM.C18_nested_exact_counterexample_compound', 'TM.C18_nested_owner_iff',
+                'TM.C18_flat_no_final_otherwise', 'TM.C18_nested_exact', 'TM.C18_nested_calls', 'TM.C18_nested_owner_iff',
                 'TM.C18_nested_machine_last', 'TM.C18_nested_children_first', 'TM.C18_nested_once')
     manifest = dict(
         level='proof', design='DESIGN.md 4/C18 + design_notes/C18.md',
@@ -630,21 +581,22 @@ class C18(runner.Check):
              "once each in list order, then the after callbacks (internal: after only; nothing executed: none), with "
              "nothing between events. Nested: the transcription of NestedTransition._final_check (loop variable doubling "
              "as return value included) against the declarative fires spec over all configuration trees, flag "
-             "placements and entered sets by structural induction: C18_nested_exact_partial for the code as it is "
-             "under two decidable exclusions (items 10, 11), proved counterexamples for both and for the root-scope "
-             "AttributeError, C18_nested_exact_patched = the full statement for the code with the candidate patches, "
-             "plus children-first / machine-last / once. Tied to /repo by driving HierarchicalMachine and "
+             "placements and entered sets by structural induction: C18_nested_exact at full strength (the check never "
+             "raises and schedules exactly the owners that fire), plus children-first / machine-last / once; the "
+             "three defects repaired by 919a36b / 576f1fd are regression examples in Lean and in the corpus. Tied to /repo by driving HierarchicalMachine and "
              "HierarchicalAsyncMachine on random (depth <= 4, exclusive/parallel/partial-parallel) and all small trees, "
-             "observing per executed transition the entered set, configuration and recorder calls: the fires spec "
+             "observing per executed transition the entered set, configuration and recorder calls (coroutine recorders "
+             "that really suspend on the async class, with start and end): the fires spec "
              "(Python statement == compiled Lean spec on every segment) judges order, multiplicity, absence and "
-             "position; the Lean model of _final_check must reproduce the implementation's on_final sequence exactly.",
+             "position and completion (a descendant's on_final has completed before an ancestor's starts); the Lean "
+             "model of _final_check must reproduce the implementation's on_final sequence exactly.",
         note="Trusted: Lean kernel, the transcription lean/Model/Final.lean (tied by equality of the scheduled callback "
              "sequence on every observed segment), the reading of the statement in lean/Model/Spec/C18.lean and "
              "harness/nfinal.py (two independent renderings compared on every segment), recorders. The entered set and the "
              "configuration are OBSERVED on the implementation (on_enter recorders, model.state), not modelled: how "
              "_resolve_transition computes them is C02/C03's subject; theorem hypothesis enteredWF (entered states are "
              "active afterwards; below an entered state everything active was entered) is checked on every observed "
-             "segment and reported. Open findings F-C18-* are classified by signature.",
+             "segment and reported. No open finding: every rejection is a VIOLATION.",
         technique='Lean 4 proof (mutual structural induction over configuration trees; acceptor analysis for the flat '
                   'engine) + differential correspondence of _final_check + spec monitor on observed transitions, '
                   'exhaustive small scope')
@@ -674,10 +626,8 @@ class C18(runner.Check):
                 'transitions aborted by an exception other than the root-scope AttributeError are not judged',
                 'flat theorems assume scripts that neither raise nor re-enter the API (C04/C05) and an unqueued machine; '
                 'the flat streams stay inside that domain',
-                'the variant of the Lean model that mirrors /repo follows the status of the findings '
-                'F-C18-final-check-loop-variable / F-C18-final-compound-never-fires in known_findings.json '
-                '(open = code as it is; fixed = the patched transcription, for which the stronger theorems '
-                'C18_nested_exact_leak_patched / C18_nested_exact_patched hold)']
+                'callbacks of ONE on_final list may overlap on the async class (AsyncMachine.callbacks gathers a list): only '
+                'completion of a descendant\'s callbacks before an ancestor\'s start is demanded']
 
     # -----------------------------------------------------------------------------------------
     def explore(self, tier, seed):
@@ -738,9 +688,8 @@ class C18(runner.Check):
         payloads = [(chunk_nested, (seed + 7919, i, 150, soft)) for i in range(32)]
         payloads += [(chunk_flat, (seed + 7919, i, 150, False, soft)) for i in range(8)]
         payloads += [(chunk_flat, (seed + 7919, i, 100, True, soft)) for i in range(8)]
-        known = set(k.get('signature') for k in self.known())
         for part in runner.parallel(_dispatch, payloads):
-            found += [f for f in part.failures if f.kind == 'monitor' and f.signature not in known]
+            found += [f for f in part.failures if f.kind == 'monitor']
         for f in found[:1]:
             f.case = runner.shrink(f.case, self.fails_like(f), shrink_steps, budget=300)
         return found
